@@ -39,7 +39,10 @@ def execute(c):
     call = c["call"]
     axis = call["axis"]
     N = len(axis)
-    data = np.array([[np.nan if s == "nan" else float(s) for s in px] for px in call["data"]], dtype="float64")
+    # the cube's floating type in turn (NaN-skipping is not a float64 privilege); the mean comes back in that type
+    call.setdefault("dtype", ["float64", "float32"][(c.get("tid", 0) // 2) % 2])
+    call["mtol"] = {"float64": "1/1125899906842624", "float32": "1/4194304"}[call["dtype"]]
+    data = np.array([[np.nan if s == "nan" else float(s) for s in px] for px in call["data"]], dtype=call["dtype"])
     npx = data.shape[0]
     timedim = call["dim"] == "time"
     if timedim:
